@@ -301,6 +301,10 @@ def make_resource():
     m.__dict__.update({k: v for k, v in _real_resource.__dict__.items()
                        if not k.startswith("__")})
     m.prlimit = lambda pid, res, limits=None: cur().k_prlimit(pid, res, limits)
+    # the caller's own limits: never the real process's
+    m.setrlimit = lambda res, limits: cur().k_prlimit(
+        cur().self_pid, res, limits) and None
+    m.getrlimit = lambda res: cur().k_prlimit(cur().self_pid, res)
     return m
 
 
